@@ -9,11 +9,27 @@ From V Require Import Base.UString Model.PatternEq Spec.PatternSemantics Proofs.
      Proofs.PatternEqBind Proofs.PatternEqC Proofs.PatternEqDnf Proofs.PatternEqNorm.
 Import ListNotations.
 
+Lemma oflatten_OAnd : forall l, fst (oflatten (OAnd l)) = fst (oflatten_node OpAnd (map fst (map oflatten l))).
+Proof. intro l. simpl. destruct (oflatten_node OpAnd (map fst (map oflatten l))); reflexivity. Qed.
+Lemma oflatten_OOr : forall l, fst (oflatten (OOr l)) = fst (oflatten_node OpOr (map fst (map oflatten l))).
+Proof. intro l. simpl. destruct (oflatten_node OpOr (map fst (map oflatten l))); reflexivity. Qed.
+Lemma oflatten_OFby : forall l, fst (oflatten (OFby l)) = fst (oflatten_node OpFby (map fst (map oflatten l))).
+Proof. intro l. simpl. destruct (oflatten_node OpFby (map fst (map oflatten l))); reflexivity. Qed.
+
+Lemma oorder_OAnd : forall l, fst (oorder (OAnd l)) = fst (oorder_node OpAnd (map fst (map oorder l))).
+Proof. reflexivity. Qed.
+Lemma oorder_OOr : forall l, fst (oorder (OOr l)) = fst (oorder_node OpOr (map fst (map oorder l))).
+Proof. reflexivity. Qed.
+
+Lemma oabsorb_OOr : forall l, fst (oabsorb (OOr l)) = fst (oabsorb_node (map fst (map oabsorb l))).
+Proof. reflexivity. Qed.
+
 Section OSem.
   Variable obj : Type.
   Variable otype : obj -> ustring.
   Variable H : ustring -> list step -> cop -> bool -> dconst -> obj -> bool.
   Hypothesis Hden : respects_denotation obj H.
+  Hypothesis Hcidr : respects_cidr obj H.
   Variable O : list (observation obj).
 
   Notation csem := (csem obj otype H).
@@ -434,5 +450,391 @@ Section OSem.
     - pose proof (oflatten_ops_Beq o []) as E. destruct (oflatten_ops o []). exact E.
     - simpl. intro bb. symmetry. apply B_single.
     - pose proof (oflatten_ops_Beq o (x :: x' :: l)) as E. destruct (oflatten_ops o (x :: x' :: l)). exact E.
+  Qed.
+
+  Lemma Forall_map_Beq : forall (f : oexpr -> oexpr) l, Forall (fun e => Beq (f e) e) l -> Forall2 Beq (map f l) l.
+  Proof. induction 1; simpl; constructor; assumption. Qed.
+
+  Lemma oflatten_sound : forall e, Beq (fst (oflatten e)) e.
+  Proof.
+    induction e using oexpr_ind'.
+    - apply Beq_refl.
+    - rewrite oflatten_OAnd. eapply Beq_trans; [apply oflatten_node_Beq|]. apply (Beq_mko OpAnd).
+      rewrite map_map. apply Forall_map_Beq. exact H0.
+    - rewrite oflatten_OOr. eapply Beq_trans; [apply oflatten_node_Beq|]. apply (Beq_mko OpOr).
+      rewrite map_map. apply Forall_map_Beq. exact H0.
+    - rewrite oflatten_OFby. eapply Beq_trans; [apply oflatten_node_Beq|]. apply (Beq_mko OpFby).
+      rewrite map_map. apply Forall_map_Beq. exact H0.
+    - simpl. destruct (oflatten e) as [r ch]. simpl in *. apply Beq_qual. exact IHe.
+  Qed.
+
+  (* ---------------------------------------------------------------- *)
+  (* OrderDedupeTransformer                                            *)
+
+  Lemma refines_and_perm : forall l l', Permutation l l' -> refines (OAnd l) (OAnd l').
+  Proof.
+    intros l l' HP b Hb. apply B_and in Hb. destruct Hb as [bs [HB [Hn ->]]].
+    destruct (Forall2_perm_l _ _ _ HB l' HP) as [bs' [Pb HB']].
+    pose proof (Permutation_concat _ _ Pb) as Pc.
+    exists (List.concat bs'). split.
+    - intros x Hx. apply (Permutation_in x (Permutation_sym Pc) Hx).
+    - apply B_and. exists bs'. split; [exact HB' | split; [|reflexivity]]. apply (Permutation_NoDup Pc Hn).
+  Qed.
+
+  Lemma oequiv_and_perm : forall l l', Permutation l l' -> oequiv (OAnd l) (OAnd l').
+  Proof. intros l l' HP. split; apply refines_and_perm; [exact HP | apply Permutation_sym; exact HP]. Qed.
+
+  Lemma Beq_or_dedupe : forall l, Beq (OOr (dedupe ocmp (isort ocmp l))) (OOr l).
+  Proof.
+    intros l bb. rewrite !B_or. split.
+    - intros [e [He Hb]]. exists e. split; [|exact Hb]. apply (incl_isort ocmp l). apply (dedupe_incl ocmp _ e He).
+    - intros [e [He Hb]].
+      assert (He' : In e (isort ocmp l)) by (apply (Permutation_in e (Permutation_sym (isort_perm ocmp l)) He)).
+      destruct (dedupe_cover ocmp _ e He') as [y [Hy [->|Ey]]].
+      + exists e. auto.
+      + exists y. split; [exact Hy|]. apply (ocmp_Beq y e Ey). exact Hb.
+  Qed.
+
+  Lemma oorder_node_and : forall l, oequiv (fst (oorder_node OpAnd l)) (OAnd l).
+  Proof. intro l. unfold oorder_node. cbn [fst mko]. apply oequiv_and_perm. apply isort_perm. Qed.
+
+  Lemma oorder_node_or : forall l, oequiv (fst (oorder_node OpOr l)) (OOr l).
+  Proof. intro l. unfold oorder_node. cbn [fst mko]. apply Beq_oequiv. apply Beq_or_dedupe. Qed.
+
+  Lemma Forall_map_oequiv : forall (f : oexpr -> oexpr) l, Forall (fun e => oequiv (f e) e) l -> Forall2 oequiv (map f l) l.
+  Proof. induction 1; simpl; constructor; assumption. Qed.
+
+  Lemma oorder_sound : forall e, oequiv (fst (oorder e)) e.
+  Proof.
+    induction e using oexpr_ind'.
+    - apply oequiv_refl.
+    - rewrite oorder_OAnd. eapply oequiv_trans; [apply oorder_node_and|]. apply oequiv_and.
+      rewrite map_map. apply Forall_map_oequiv. exact H0.
+    - rewrite oorder_OOr. eapply oequiv_trans; [apply oorder_node_or|]. apply oequiv_or.
+      rewrite map_map. apply Forall_map_oequiv. exact H0.
+    - simpl. apply oequiv_fby. rewrite map_map. apply Forall_map_oequiv. exact H0.
+    - simpl. destruct (oorder e) as [r ch]. simpl in *. apply oequiv_qual. exact IHe.
+  Qed.
+
+  (* ---------------------------------------------------------------- *)
+  (* AbsorptionTransformer                                             *)
+
+  Lemma remove_first_spec : forall {A} (p : A -> bool) l l',
+      remove_first p l = Some l' -> exists pre x post, l = (pre ++ x :: post)%list /\ p x = true /\ l' = (pre ++ post)%list.
+  Proof.
+    induction l as [|y l IH]; simpl; intros l' E; [discriminate|].
+    destruct (p y) eqn:Py.
+    - inversion E; subst. exists [], y, l'. auto.
+    - destruct (remove_first p l) as [r'|] eqn:Er; [|discriminate]. inversion E; subst.
+      destruct (IH r' eq_refl) as [pre [x [post [-> [Px ->]]]]]. exists (y :: pre), x, post. auto.
+  Qed.
+
+  Lemma drop_until_spec : forall {A} (p : A -> bool) l l',
+      drop_until p l = Some l' -> exists pre x, l = (pre ++ x :: l')%list /\ p x = true.
+  Proof.
+    induction l as [|y l IH]; simpl; intros l' E; [discriminate|].
+    destruct (p y) eqn:Py.
+    - inversion E; subst. exists [], y. auto.
+    - destruct (IH l' E) as [pre [x [-> Px]]]. exists (y :: pre), x. auto.
+  Qed.
+
+  Lemma Forall2_B_split : forall pre er post bs,
+      Forall2 B (pre ++ er :: post) bs ->
+      exists bpre ber bpost, bs = (bpre ++ ber :: bpost)%list /\ Forall2 B pre bpre /\ B er ber /\ Forall2 B post bpost.
+  Proof.
+    intros pre er post bs HB. apply Forall2_app_inv_l in HB. destruct HB as [bpre [brest [H1 [H2 ->]]]].
+    inversion H2 as [|x0 ber l0 bpost Hb H3]; subst. exists bpre, ber, bpost. auto.
+  Qed.
+
+  (* __is_contained_and: distinct operands of the container, one per containee *)
+  Lemma contained_and_sem : forall ees container bs,
+      contained_and ocmp ees container = true -> Forall2 B container bs -> NoDup (List.concat bs) ->
+      exists bs', Forall2 B ees bs' /\ NoDup (List.concat bs') /\ incl (List.concat bs') (List.concat bs).
+  Proof.
+    induction ees as [|ee r IH]; intros container bs E HB Hn.
+    - exists []. repeat split; [constructor | constructor | intros x []].
+    - simpl in E. destruct (remove_first (fun er => is_eq (ocmp ee er)) container) as [c'|] eqn:Er; [|discriminate].
+      apply remove_first_spec in Er. destruct Er as [pre [er [post [-> [Pe ->]]]]].
+      apply is_eq_true in Pe.
+      destruct (Forall2_B_split _ _ _ _ HB) as [bpre [ber [bpost [-> [H1 [H2 H3]]]]]].
+      rewrite concat_app in Hn. simpl in Hn. apply NoDup_remove_mid in Hn. destruct Hn as [Nac [Nm Dm]].
+      rewrite <- concat_app in Nac, Dm.
+      destruct (IH (pre ++ post)%list (bpre ++ bpost)%list E (Forall2_app H1 H3) Nac) as [bs' [HB' [Hn' Hi']]].
+      exists (ber :: bs'). split; [|split].
+      + constructor; [apply (ocmp_Beq ee er Pe); exact H2 | exact HB'].
+      + simpl. apply NoDup_app_iff. repeat split; [exact Nm | exact Hn'|].
+        intros x Hx Hx'. apply (Dm x Hx). apply Hi'. exact Hx'.
+      + simpl. rewrite !concat_app. simpl. intros x Hx. apply in_app_or in Hx. destruct Hx as [Hx|Hx].
+        * apply in_or_app. right. apply in_or_app. left. exact Hx.
+        * apply Hi' in Hx. rewrite concat_app in Hx. apply in_app_or in Hx. destruct Hx as [Hx|Hx];
+            apply in_or_app; [left; exact Hx | right; apply in_or_app; right; exact Hx].
+  Qed.
+
+  (* __is_contained_followedby: a sub-sequence of the container *)
+  Lemma contained_fby_sem : forall ees ers bs,
+      contained_fby ocmp ees ers = true -> Forall2 B ers bs -> exists bs', Forall2 B ees bs' /\ sublist bs' bs.
+  Proof.
+    induction ees as [|ee r IH]; intros ers bs E HB.
+    - exists []. split; [constructor | apply sublist_nil_l].
+    - simpl in E. destruct (drop_until (fun er => is_eq (ocmp ee er)) ers) as [ers'|] eqn:Ed; [|discriminate].
+      apply drop_until_spec in Ed. destruct Ed as [pre [er [-> Pe]]]. apply is_eq_true in Pe.
+      destruct (Forall2_B_split _ _ _ _ HB) as [bpre [ber [bpost [-> [H1 [H2 H3]]]]]].
+      destruct (IH ers' bpost E H3) as [bs' [HB' Hs]].
+      exists (ber :: bs'). split.
+      + constructor; [apply (ocmp_Beq ee er Pe); exact H2 | exact HB'].
+      + apply sublist_app_skip. apply sl_take. exact Hs.
+  Qed.
+
+  Lemma in_cmp_refines_and : forall c1 ops2, in_cmp ocmp c1 ops2 = true -> refines (OAnd ops2) c1.
+  Proof.
+    intros c1 ops2 E b Hb. apply in_cmp_true in E. destruct E as [y [Hy Ey]].
+    apply B_and in Hb. destruct Hb as [bs [HB [_ ->]]].
+    destruct (F2_In_l _ _ _ y HB Hy) as [by_ [Hby By]].
+    exists by_. split; [apply incl_concat_elem; exact Hby | apply (ocmp_Beq c1 y Ey); exact By].
+  Qed.
+
+  Lemma in_cmp_refines_fby : forall c1 ops2, in_cmp ocmp c1 ops2 = true -> refines (OFby ops2) c1.
+  Proof.
+    intros c1 ops2 E b Hb. apply in_cmp_true in E. destruct E as [y [Hy Ey]].
+    apply B_fby in Hb. destruct Hb as [bs [HB [_ [_ ->]]]].
+    destruct (F2_In_l _ _ _ y HB Hy) as [by_ [Hby By]].
+    exists by_. split; [apply incl_concat_elem; exact Hby | apply (ocmp_Beq c1 y Ey); exact By].
+  Qed.
+
+  Lemma contained_and_refines : forall ops1 ops2, contained_and ocmp ops1 ops2 = true -> refines (OAnd ops2) (OAnd ops1).
+  Proof.
+    intros ops1 ops2 E b Hb. apply B_and in Hb. destruct Hb as [bs [HB [Hn ->]]].
+    destruct (contained_and_sem ops1 ops2 bs E HB Hn) as [bs' [HB' [Hn' Hi']]].
+    exists (List.concat bs'). split; [exact Hi' | apply B_and; exists bs'; auto].
+  Qed.
+
+  Lemma contained_fby_refines : forall ops1 ops2, contained_fby ocmp ops1 ops2 = true -> refines (OFby ops2) (OFby ops1).
+  Proof.
+    intros ops1 ops2 E b Hb. apply B_fby in Hb. destruct Hb as [bs [HB [Hn [Hf ->]]]].
+    destruct (contained_fby_sem ops1 ops2 bs E HB) as [bs' [HB' Hs]].
+    exists (List.concat bs'). split; [apply sublist_concat_incl; exact Hs|].
+    apply B_fby. exists bs'. split; [exact HB' | split; [|split; [|reflexivity]]].
+    - apply (sublist_concat_NoDup _ _ Hs Hn).
+    - apply (sublist_FOP _ _ _ Hs Hf).
+  Qed.
+
+  (* may child2 go because of child1?  then every binding of child2 contains one of child1 *)
+  Lemma oabsorbs_refines : forall c1 c2, oabsorbs c1 c2 = true -> refines c2 c1.
+  Proof.
+    intros c1 c2 E. unfold oabsorbs in E.
+    destruct c2 as [x2 | ops2 | ops2 | ops2 | e2 q2]; try (destruct c1; discriminate E).
+    - destruct (in_cmp ocmp c1 ops2) eqn:I1.
+      + apply in_cmp_refines_and; exact I1.
+      + destruct c1 as [x1 | ops1 | ops1 | ops1 | e1 q1]; try discriminate E.
+        apply contained_and_refines; exact E.
+    - destruct (in_cmp ocmp c1 ops2) eqn:I1.
+      + apply in_cmp_refines_fby; exact I1.
+      + destruct c1 as [x1 | ops1 | ops1 | ops1 | e1 q1]; try discriminate E.
+        apply contained_fby_refines; exact E.
+  Qed.
+
+  Lemma oabsorb_node_sound : forall l, oequiv (fst (oabsorb_node l)) (OOr l).
+  Proof.
+    intro l. unfold oabsorb_node. cbn [fst]. split.
+    - apply refines_or. intros e He. exists e. split; [apply (remove_marked_incl l _ e He) | apply refines_refl].
+    - apply refines_or. intros e He.
+      destruct (absorb_cover oabsorbs (fun a b => refines b a)) with (ops := l) (x := e) as [y [Hy Ly]]; auto.
+      + intros a b c H1 H2. eapply refines_trans; eassumption.
+      + intros a b Eab. apply oabsorbs_refines; exact Eab.
+      + exists y. split; [exact Hy|]. destruct Ly as [->|Ly]; [apply refines_refl | exact Ly].
+  Qed.
+
+  Lemma oabsorb_sound : forall e, oequiv (fst (oabsorb e)) e.
+  Proof.
+    induction e using oexpr_ind'.
+    - apply oequiv_refl.
+    - simpl. apply oequiv_and. rewrite map_map. apply Forall_map_oequiv. exact H0.
+    - rewrite oabsorb_OOr. eapply oequiv_trans; [apply oabsorb_node_sound|]. apply oequiv_or.
+      rewrite map_map. apply Forall_map_oequiv. exact H0.
+    - simpl. apply oequiv_fby. rewrite map_map. apply Forall_map_oequiv. exact H0.
+    - simpl. destruct (oabsorb e) as [r ch]. simpl in *. apply oequiv_qual. exact IHe.
+  Qed.
+
+  (* ---------------------------------------------------------------- *)
+  (* the chain and the settle loop                                     *)
+
+  Lemma osimplify_sound : forall e, oequiv (fst (osimplify e)) e.
+  Proof.
+    intro e. unfold osimplify.
+    pose proof (oflatten_sound e) as H1. destruct (oflatten e) as [e1 c1]. simpl in H1.
+    pose proof (oorder_sound e1) as H2. destruct (oorder e1) as [e2 c2]. simpl in H2.
+    pose proof (oabsorb_sound e2) as H3. destruct (oabsorb e2) as [e3 c3]. simpl in *.
+    eapply oequiv_trans; [exact H3|]. eapply oequiv_trans; [exact H2|]. apply Beq_oequiv. exact H1.
+  Qed.
+
+  Lemma osettle_sound : forall fuel e e' ch, osettle fuel e = Ok (e', ch) -> oequiv e' e.
+  Proof.
+    intros fuel e e' ch E. unfold osettle, settle in E.
+    apply (settle_loop_inv (fun a b => oequiv b a) (fun y => Ok (osimplify y))) in E; auto.
+    - intros a b c H1 H2. eapply oequiv_trans; eassumption.
+    - intros a a' c Ea. inversion Ea. pose proof (osimplify_sound a) as Hs. rewrite H1 in Hs. exact Hs.
+  Qed.
+
+  (* ---------------------------------------------------------------- *)
+  (* DNFTransformer                                                    *)
+
+  Lemma B_or_iterable : forall e b, B e b <-> exists c, In c (or_iterable e) /\ B c b.
+  Proof.
+    intros e b. destruct e as [x | l | l | l | e' q]; simpl or_iterable;
+      try (split; [intro Hb; eexists; split; [left; reflexivity | exact Hb]
+                  | intros [c [[<-|[]] Hb]]; exact Hb]).
+    apply B_or.
+  Qed.
+
+  Lemma Forall2_choice : forall l bs,
+      Forall2 B l bs <-> exists sel, Forall2 (fun c ops => In c ops) sel (map or_iterable l) /\ Forall2 B sel bs.
+  Proof.
+    induction l as [|e l IH]; intros bs.
+    - split.
+      + intro HB. inversion HB; subst. exists []. split; constructor.
+      + intros [sel [Hs HB]]. inversion Hs; subst. inversion HB; subst. constructor.
+    - split.
+      + intro HB. inversion HB as [|e0 b0 l0 bs0 Hb HB']; subst.
+        apply B_or_iterable in Hb. destruct Hb as [c [Hc Hb]].
+        apply IH in HB'. destruct HB' as [sel [Hs HB'']].
+        exists (c :: sel). split; constructor; assumption.
+      + intros [sel [Hs HB]]. simpl in Hs. inversion Hs as [|c ops sel' r Hc Hs']; subst.
+        inversion HB as [|c0 b0 l0 bs0 Hb HB']; subst.
+        constructor; [apply B_or_iterable; exists c; auto | apply IH; exists sel'; auto].
+  Qed.
+
+  Lemma product_Forall2 : forall {A} (ls : list (list A)) sel,
+      In sel (product ls) <-> Forall2 (fun a l => In a l) sel ls.
+  Proof.
+    induction ls as [|l r IH]; intros sel; simpl.
+    - split; [intros [<-|[]]; constructor | intro HF; inversion HF; left; reflexivity].
+    - rewrite in_flat_map. split.
+      + intros [x [Hx Hs]]. apply in_map_iff in Hs. destruct Hs as [q [<- Hq]]. constructor; [exact Hx | apply IH; exact Hq].
+      + intro HF. inversion HF as [|a l0 sel' r0 Ha HF']; subst. exists a. split; [exact Ha|].
+        apply in_map_iff. exists sel'. split; [reflexivity | apply IH; exact HF'].
+  Qed.
+
+  Lemma distribute_and_Beq : forall l, Beq (OOr (map OAnd (product (map or_iterable l)))) (OAnd l).
+  Proof.
+    intros l bb. rewrite B_or, B_and. split.
+    - intros [e [He Hb]]. apply in_map_iff in He. destruct He as [sel [<- Hs]].
+      apply B_and in Hb. destruct Hb as [bs [HB Hr]]. exists bs. split; [|exact Hr].
+      apply Forall2_choice. exists sel. split; [apply product_Forall2; exact Hs | exact HB].
+    - intros [bs [HB Hr]]. apply Forall2_choice in HB. destruct HB as [sel [Hs HB]].
+      exists (OAnd sel). split; [apply in_map_iff; exists sel; split; [reflexivity | apply product_Forall2; exact Hs]|].
+      apply B_and. exists bs. auto.
+  Qed.
+
+  Lemma distribute_fby_Beq : forall l, Beq (OOr (map OFby (product (map or_iterable l)))) (OFby l).
+  Proof.
+    intros l bb. rewrite B_or, B_fby. split.
+    - intros [e [He Hb]]. apply in_map_iff in He. destruct He as [sel [<- Hs]].
+      apply B_fby in Hb. destruct Hb as [bs [HB Hr]]. exists bs. split; [|exact Hr].
+      apply Forall2_choice. exists sel. split; [apply product_Forall2; exact Hs | exact HB].
+    - intros [bs [HB Hr]]. apply Forall2_choice in HB. destruct HB as [sel [Hs HB]].
+      exists (OFby sel). split; [apply in_map_iff; exists sel; split; [reflexivity | apply product_Forall2; exact Hs]|].
+      apply B_fby. exists bs. auto.
+  Qed.
+
+  Lemma odnf_children : forall f l rs,
+      (forall e e' ch, odnf f e = Ok (e', ch) -> Beq e' e) ->
+      mapM (odnf f) l = Ok rs -> Forall2 Beq (map fst rs) l.
+  Proof.
+    intros f l rs IH Em. apply mapM_Forall2 in Em. induction Em as [|c [c' ch'] l rs Ec _ IHm]; simpl; constructor.
+    - apply (IH c c' ch' Ec).
+    - exact IHm.
+  Qed.
+
+  Lemma odnf_kids : forall f ks kids,
+      (forall e e' ch, odnf f e = Ok (e', ch) -> Beq e' e) ->
+      mapM (fun c => r <- odnf f c ;; Ok (fst r)) ks = Ok kids -> Forall2 Beq kids ks.
+  Proof.
+    intros f ks kids IH Em. apply mapM_Forall2 in Em. induction Em as [|k kid ks kids Ek _ IHm]; constructor.
+    - apply bind_ok in Ek. destruct Ek as [[e' ch] [Ed Er]]. inversion Er as [Ekid]. simpl in Ekid. rewrite <- Ekid.
+      apply (IH k e' ch Ed).
+    - exact IHm.
+  Qed.
+
+  Lemma odnf_sound : forall f e e' ch, odnf f e = Ok (e', ch) -> Beq e' e.
+  Proof.
+    induction f as [|f IH]; intros e e' ch E; [discriminate|].
+    destruct e as [x | l | l | l | e0 q]; cbn [odnf] in E.
+    - inversion E. apply Beq_refl.
+    - apply bind_ok in E. destruct E as [rs [Em E]].
+      pose proof (odnf_children f l rs IH Em) as HC.
+      destruct (existsb is_oor (map fst rs)).
+      + apply bind_ok in E. destruct E as [kids [Ek E]]. inversion E; subst e'.
+        pose proof (odnf_kids f _ kids IH Ek) as HK.
+        eapply Beq_trans; [apply (Beq_mko OpOr _ _ HK)|]. simpl mko.
+        eapply Beq_trans; [apply distribute_and_Beq|]. apply (Beq_mko OpAnd _ _ HC).
+      + inversion E; subst e'. apply (Beq_mko OpAnd _ _ HC).
+    - apply bind_ok in E. destruct E as [rs [Em E]]. inversion E; subst e'.
+      apply (Beq_mko OpOr _ _ (odnf_children f l rs IH Em)).
+    - apply bind_ok in E. destruct E as [rs [Em E]].
+      pose proof (odnf_children f l rs IH Em) as HC.
+      destruct (existsb is_oor (map fst rs)).
+      + apply bind_ok in E. destruct E as [kids [Ek E]]. inversion E; subst e'.
+        pose proof (odnf_kids f _ kids IH Ek) as HK.
+        eapply Beq_trans; [apply (Beq_mko OpOr _ _ HK)|]. simpl mko.
+        eapply Beq_trans; [apply distribute_fby_Beq|]. apply (Beq_mko OpFby _ _ HC).
+      + inversion E; subst e'. apply (Beq_mko OpFby _ _ HC).
+    - apply bind_ok in E. destruct E as [[r c] [Ee E]]. inversion E; subst e'. apply Beq_qual. apply (IH e0 r c Ee).
+  Qed.
+
+  (* ---------------------------------------------------------------- *)
+  (* NormalizeComparisonExpressionsTransformer and the whole normaliser *)
+
+  Lemma onormcmp_sound : forall v fuel p e ch,
+      safe_o v p = true -> onormcmp v fuel p = Ok (e, ch) -> oequiv e (unparen_o p).
+  Proof.
+    intros v fuel. induction p using oexpr0_ind'; intros e ch Hs E; simpl in E, Hs.
+    - apply bind_ok in E. destruct E as [[c' ch'] [Ec E]]. inversion E; subst e. simpl.
+      apply oequiv_obs. intro x. apply (cnormalize_sound obj otype H Hden Hcidr v fuel c c' ch' Hs Ec x).
+    - apply bind_ok in E. destruct E as [rs [Em E]]. injection E as Ee Ech. subst e. clear Ech. simpl. apply oequiv_and.
+      apply mapM_Forall2 in Em. rewrite forallb_forall in Hs. rewrite Forall_forall in H0.
+      revert Hs H0. induction Em as [|c [c' ch'] l rs Ec _ IHm]; intros Hs H0; simpl; constructor.
+      + apply (H0 c (or_introl eq_refl) c' ch' (Hs c (or_introl eq_refl)) Ec).
+      + apply IHm; [intros y Hy; apply Hs; right; exact Hy | intros y Hy; apply H0; right; exact Hy].
+    - apply bind_ok in E. destruct E as [rs [Em E]]. injection E as Ee Ech. subst e. clear Ech. simpl. apply oequiv_or.
+      apply mapM_Forall2 in Em. rewrite forallb_forall in Hs. rewrite Forall_forall in H0.
+      revert Hs H0. induction Em as [|c [c' ch'] l rs Ec _ IHm]; intros Hs H0; simpl; constructor.
+      + apply (H0 c (or_introl eq_refl) c' ch' (Hs c (or_introl eq_refl)) Ec).
+      + apply IHm; [intros y Hy; apply Hs; right; exact Hy | intros y Hy; apply H0; right; exact Hy].
+    - apply bind_ok in E. destruct E as [rs [Em E]]. injection E as Ee Ech. subst e. clear Ech. simpl. apply oequiv_fby.
+      apply mapM_Forall2 in Em. rewrite forallb_forall in Hs. rewrite Forall_forall in H0.
+      revert Hs H0. induction Em as [|c [c' ch'] l rs Ec _ IHm]; intros Hs H0; simpl; constructor.
+      + apply (H0 c (or_introl eq_refl) c' ch' (Hs c (or_introl eq_refl)) Ec).
+      + apply IHm; [intros y Hy; apply Hs; right; exact Hy | intros y Hy; apply H0; right; exact Hy].
+    - apply bind_ok in E. destruct E as [[r c] [Ee E]]. inversion E; subst e. simpl. apply oequiv_qual.
+      apply (IHp r c Hs Ee).
+    - apply bind_ok in E. destruct E as [[r c] [Ee E]]. inversion E; subst e. simpl. apply (IHp r c Hs Ee).
+  Qed.
+
+  Lemma onormalize_sound : forall v fuel p n,
+      safe_o v p = true -> onormalize v fuel p = Ok n -> oequiv n (unparen_o p).
+  Proof.
+    intros v fuel p n Hs E. unfold onormalize in E.
+    apply bind_ok in E. destruct E as [[e0 c0] [E0 E]].
+    apply bind_ok in E. destruct E as [[e1 c1] [E1 E]].
+    apply bind_ok in E. destruct E as [[e2 c2] [E2 E]].
+    apply bind_ok in E. destruct E as [[e3 c3] [E3 E]]. inversion E; subst n.
+    eapply oequiv_trans; [apply (osettle_sound _ _ _ _ E3)|].
+    eapply oequiv_trans; [apply Beq_oequiv; apply (odnf_sound _ _ _ _ E2)|].
+    eapply oequiv_trans; [apply (osettle_sound _ _ _ _ E1)|].
+    apply (onormcmp_sound v fuel p e0 c0 Hs E0).
+  Qed.
+
+  (* equiv_sound *)
+  Lemma equiv_sound : forall v fuel p q,
+      safe_o v p = true -> safe_o v q = true -> equiv v fuel p q = Ok true ->
+      (matches0 obj otype H O p <-> matches0 obj otype H O q).
+  Proof.
+    intros v fuel p q Sp Sq E. unfold equiv in E.
+    apply bind_ok in E. destruct E as [n1 [E1 E]]. apply bind_ok in E. destruct E as [n2 [E2 E]].
+    inversion E as [Eb]. apply is_eq_true in Eb. unfold matches0.
+    apply oequiv_matches.
+    eapply oequiv_trans; [apply oequiv_sym; apply (onormalize_sound v fuel p n1 Sp E1)|].
+    eapply oequiv_trans; [apply Beq_oequiv; apply (ocmp_Beq n1 n2 Eb)|].
+    apply (onormalize_sound v fuel q n2 Sq E2).
   Qed.
 End OSem.
